@@ -115,8 +115,12 @@ def main(argv=None):
     if not os.environ.get("VERIF_SKIP_SELFTEST"):
         # validation of the encoding (numpy stand-ins, FP models, real functions under the shim) - fail closed
         from . import selftest
-        with cf.ProcessPoolExecutor(max_workers=1, mp_context=mp.get_context("fork")) as ex:
-            ncases, fails = ex.submit(selftest.run, seed).result()
+        try:
+            with cf.ProcessPoolExecutor(max_workers=1, mp_context=mp.get_context("fork")) as ex:
+                ncases, fails = ex.submit(selftest.run, seed).result()
+        except Exception as e:      # fail closed, without a traceback that could be mistaken for a verdict
+            print(f"HARNESS-ERROR property={pid} self-test of the encoding could not run: {type(e).__name__}: {str(e)[:300]}")
+            return 3
         selftest_info = {"cases": ncases, "failures": len(fails)}
         if fails:
             print(f"HARNESS-ERROR property={pid} self-test of the encoding failed ({len(fails)} of {ncases}):")
